@@ -44,7 +44,8 @@ import (
 
 const (
 	c18WaitSlackMs    = 1200 // as c18SlackMs
-	c18WaitDeadlineMs = 6000 // harness deadline: "did not complete" (Destroy's own fallback deadline is 3.5 s)
+	c18WaitDeadlineMs = 4500 // harness deadline: "did not complete" (Destroy's own fallback deadline is 3.5 s)
+	c18WaitMaxHangs   = 4    // after that many runs that did not complete the rest of a family is skipped (each costs the deadline)
 )
 
 // ---------------------------------------------------------------------------------------------------------------
@@ -69,7 +70,7 @@ func c18QFullOut(z []int64) string {
 		return "badcase"
 	}
 	q, w, p, done, dropped := z[2], z[3], z[4], z[5], z[7]
-	if q < 0 || w < 0 || p < 0 || dropped < 0 || q > 100000 || w > 100000 || p > 100000 {
+	if q < 1 || w < 0 || p < 0 || dropped < 0 || q > 100000 || w > 100000 || p > 100000 {
 		return "badcase"
 	}
 	// the feeder can have made room for at most w + 1 chunks (window + the chunk in its hand)
@@ -393,9 +394,17 @@ func c18GenStopWaits(g *Gen) {
 		}
 		scens = append(scens, scen{4, 2, 12}, scen{8, 4, 0}, scen{8, 4, 1}) // the demonstration's sizes; nothing / one chunk
 		var maxMs int64
+		hangs := 0
 		for round := 0; round < rounds; round++ {
 			for _, sc := range scens {
+				if hangs >= c18WaitMaxHangs {
+					g.Count("queue-full-skipped-after-hangs")
+					continue
+				}
 				o := c18RunQFull(sc.q, sc.w, sc.p)
+				if !o.Done && o.Note == "" {
+					hangs++
+				}
 				z := o.z(g.Seed, idx)
 				idx++
 				cs := &Case{Kind: 3, Z: z}
@@ -435,9 +444,17 @@ func c18GenStopWaits(g *Gen) {
 		}
 		idx = 4000
 		var maxMs int64
+		hangs := 0
 		for round := 0; round < rounds; round++ {
 			for _, sc := range scens {
+				if hangs >= c18WaitMaxHangs {
+					g.Count("listener-skipped-after-hangs")
+					continue
+				}
 				o := c18RunLsnr(sc.e, sc.l, sc.d, sc.s)
+				if !o.Stopped && o.Note == "" {
+					hangs++
+				}
 				z := o.z(g.Seed, idx)
 				idx++
 				cs := &Case{Kind: 4, Z: z}
@@ -473,14 +490,14 @@ func c18GenStopWaits(g *Gen) {
 		if r.Intn(10) == 0 {
 			dropped += int64(r.Intn(3))
 		}
-		out := g.Case(3, nil, []int64{-1, int64(i), q, w, p, int64(r.Intn(2)), p - dropped, dropped})
+		out := g.Case(3, nil, []int64{-1, int64(i), q, w, p, 1, p - dropped, dropped})
 		if j := strings.IndexByte(out, ':'); j > 0 {
 			g.Count("queue-full-sweep-" + out[:j])
 		} else if out != "" {
 			g.Count("queue-full-sweep-" + out)
 		}
 		e, l := int64(r.Intn(6)), int64(r.Intn(6))
-		g.Case(4, nil, []int64{-1, int64(i), e, l, int64(r.Intn(100)), int64(r.Intn(2)), int64(r.Intn(2)), int64(r.Intn(int(e+l) + 1))})
+		g.Case(4, nil, []int64{-1, int64(i), e, l, int64(r.Intn(100)), int64(r.Intn(2)), 1, e + l})
 		g.Count("listener-sweep")
 	}
 }
